@@ -250,6 +250,37 @@ func (g *gen) genSet(id int) *caseIn {
 			c.Svcs[i].Types[name].Fields[fmt.Sprintf("f%d", f)] = g.fieldSig()
 		}
 	}
+	// an extra interface implemented by a shared Node type in ONE of the services declaring it
+	if g.chance(0.5) {
+		var cands []string
+		for t := range c.Svcs[0].Types {
+			_ = t
+		}
+		seen := map[string][]int{}
+		for i, s := range c.Svcs {
+			for t, td := range s.Types {
+				if td.Kind == "OBJECT" && td.Node {
+					seen[t] = append(seen[t], i)
+				}
+			}
+		}
+		for t, is := range seen {
+			if len(is) >= 2 {
+				cands = append(cands, t)
+			}
+		}
+		sort.Strings(cands)
+		if len(cands) > 0 {
+			t := cands[g.pick(len(cands))]
+			i := seen[t][g.pick(len(seen[t]))]
+			s := c.Svcs[i]
+			s.Types["Named"] = &mschema.Type{Kind: "INTERFACE", Fields: map[string]*mschema.Field{"label": F("String")}}
+			s.Types[t].Impl = []string{"Named"}
+			s.Types[t].Fields["label"] = F("String")
+			s.Roots["Query"][fmt.Sprintf("named%d", i)] = F("Named")
+			tag["interface-on-shared-node-type"] = true
+		}
+	}
 	// shared value / input types: identical copies, or disjoint declarations
 	for t := 0; t < g.pick(3); t++ {
 		kind := []string{"OBJECT", "INPUT_OBJECT"}[g.pick(2)]
@@ -396,7 +427,7 @@ func (g *gen) edit(c *caseIn) (string, bool) {
 		root := []string{"Query", "Mutation"}[g.pick(2)]
 		var fs []string
 		for f, sig := range a.Roots[root] {
-			if sig.Ty != "U0" { // the other service may not declare the type
+			if sig.Ty != "U0" && sig.Ty != "Named" { // the other service may not declare the type
 				fs = append(fs, f)
 			}
 		}
